@@ -46,6 +46,19 @@ class OldRewriter(ast.NodeTransformer):
         self.params = set(params)
         self.inside = 0
 
+    def visit_Compare(self, node):
+        # `x is old(p)` for a bare parameter p compares IDENTITY with the object passed in (not with its entry snapshot)
+        def orig(e):
+            if (isinstance(e, ast.Call) and isinstance(e.func, ast.Name) and e.func.id == "old" and len(e.args) == 1
+                    and isinstance(e.args[0], ast.Name) and e.args[0].id in self.params):
+                return ast.copy_location(ast.Name(id=f"__orig_{e.args[0].id}", ctx=ast.Load()), e)
+            return None
+        if all(isinstance(op, (ast.Is, ast.IsNot)) for op in node.ops):
+            left = orig(node.left) or self.visit(node.left)
+            comps = [orig(c) or self.visit(c) for c in node.comparators]
+            return ast.copy_location(ast.Compare(left=left, ops=node.ops, comparators=comps), node)
+        return self.generic_visit(node)
+
     def visit_Call(self, node):
         if isinstance(node.func, ast.Name) and node.func.id == "old" and len(node.args) == 1:
             self.inside += 1
@@ -147,6 +160,7 @@ class Monitors:
             env.update(bound.arguments)
             for p, v in bound.arguments.items():
                 env[f"__old_{p}"] = snapshot(v)
+                env[f"__orig_{p}"] = v
             try:
                 pre_ok = all(mon.ev(key, r, params, env) for r in c.get("requires", []))
             except Exception:  # noqa: BLE001
